@@ -19,7 +19,13 @@ def run(ctx):
     if ctx.replay:
         ctx.tie("replay", [h, "run", ctx.replay], [drv]); return
     ctx.tie("known-findings+corpus", [h, "run", os.path.join(VERIF, "findings", "C15_F10.case")], [drv])
+    # async callers + async loader on real threads (no scheduler), slow Waker::clone, watchdog: monitors only
+    ctx.tie("async-stress", [h, "gen", "--seed", str(ctx.seed), "--astress", "1500" if ctx.quick else "40000"], None, timeout=1800)
     if ctx.quick:
-        ctx.tie("loader-schedules", [h, "gen", "--seed", str(ctx.seed), "--cases", "1500", "--dfs", "6000"], [drv])
+        t = ctx.tie("loader-schedules", [h, "gen", "--seed", str(ctx.seed), "--cases", "1500", "--dfs", "6000"], [drv])
+        known = {f["signature"] for f in ctx.known}
+        if t.mismatches and not any(sig not in known for _, sig, _ in t.monitor_fails):
+            # the correspondence broke: search wider (monitors only) for a concrete failing history
+            ctx.tie("search-after-correspondence-break", [h, "gen", "--seed", str(ctx.seed + 1000), "--cases", "12000", "--dfs", "60000"], None, timeout=900)
     else:
         ctx.tie("loader-schedules", [h, "gen", "--seed", str(ctx.seed), "--cases", "20000", "--dfs", "400000", "--tier", "thorough"], [drv], timeout=3000)
